@@ -316,6 +316,12 @@ impl<'tx> TxInner<'tx> {
                     file.write_all(buf)?;
                 }
             }
+
+            // The new pages (and the new file size) must be on disk before the meta page that
+            // points at them: after a power loss a meta page that outlived its data would be
+            // chosen over the intact previous one.
+            file.flush()?;
+            file.sync_all()?;
         }
         if self.db.inner.flags.strict_mode {
             self.check()?;
